@@ -117,7 +117,7 @@ type exec struct {
 	live     int
 	prefix   []int
 	pos      int
-	points   [maxPoints]PointInfo
+	points   []PointInfo
 	npoints  int
 	steps    int
 	deadlock bool
@@ -246,7 +246,7 @@ func (e *exec) pick(me int, kind Kind) int {
 			if who < 0 {
 				who = e.running
 			}
-			e.points[e.npoints] = PointInfo{Kind: kind, Thread: who, N: n, Chosen: choice, RunningEnabled: selfEnabled}
+			e.points = append(e.points, PointInfo{Kind: kind, Thread: who, N: n, Chosen: choice, RunningEnabled: selfEnabled})
 			e.npoints++
 		}
 		return cand[choice]
@@ -435,7 +435,7 @@ func Choose(n int) int {
 		e.horizon = true
 		e.abort()
 	}
-	e.points[e.npoints] = PointInfo{Kind: KEnv, Thread: e.running, N: n, Chosen: choice, Env: true}
+	e.points = append(e.points, PointInfo{Kind: KEnv, Thread: e.running, N: n, Chosen: choice, Env: true})
 	e.npoints++
 	return choice
 }
@@ -515,38 +515,15 @@ func panicString(r any) string {
 	return "panic (non-string value)"
 }
 
-// spare is the exec of the previous execution, reused when that execution ended without stragglers:
-// allocating (and, in a -race build, shadow-clearing) the ~800 KB structure per execution dominated
-// the cost of short executions. Only the parts an execution reads before writing them are reset.
-var spare *exec
-
-//go:norace
-func newExec(prefix []int) *exec {
-	e := spare
-	spare = nil
-	if e == nil {
-		return &exec{prefix: prefix, panicThr: -1}
-	}
-	for i := range e.threads {
-		e.threads[i] = thread{}
-	}
-	for i := range e.timers {
-		e.timers[i] = timer{}
-	}
-	e.nthreads, e.running, e.turn, e.aborting, e.finished, e.live = 0, 0, 0, false, false, 0
-	e.prefix, e.pos, e.npoints, e.steps = prefix, 0, 0, 0
-	e.deadlock, e.horizon, e.diverged, e.deadInfo, e.now = false, false, false, "", 0
-	e.panicMsg, e.panicThr, e.quiet = "", -1, false
-	return e
-}
-
 // Run executes body as thread 0 under the given choice prefix (choice 0 after
 // the prefix is exhausted) and returns what happened. Executions are strictly
 // sequential within a process; the caller's goroutine is the controller.
 //
 //go:norace
 func Run(prefix []int, body func()) Result {
-	e := newExec(prefix)
+	// points grows on demand: an exec used to embed a [maxPoints]PointInfo array (~800 KB), whose allocation and,
+	// in a -race build, shadow clearing dominated the cost of short executions
+	e := &exec{prefix: prefix, panicThr: -1, points: make([]PointInfo, 0, 64)}
 	e.threads[0] = thread{used: true, kind: KStart}
 	e.nthreads = 1
 	e.live = 1
@@ -574,8 +551,5 @@ func Run(prefix []int, body func()) Result {
 	res := Result{Steps: e.steps, Deadlock: e.deadlock, Horizon: e.horizon, Diverged: e.diverged, DeadInfo: e.deadInfo,
 		Threads: e.nthreads, VirtualNs: e.now, Panic: e.panicMsg, PanicThread: e.panicThr, Stragglers: stragglers}
 	res.Points = append(res.Points, e.points[:e.npoints]...)
-	if stragglers == 0 {
-		spare = e // no goroutine of this execution is left that could still touch it
-	}
 	return res
 }
